@@ -96,9 +96,14 @@ def matchers_from_command_line(filt, stop, color=False, mode_words=('-l', '/none
         words += ['-f', filt]
     if isinstance(stop, str):
         words += ['-b', stop]
-    words += list(mode_words)      # inside GDB the instance gets only the words left of -g: no mode option
-    with contextlib.redirect_stdout(io.StringIO()), contextlib.redirect_stderr(io.StringIO()):
-        args = parse_args(words)
+    if not util.check_gdb():
+        words += list(mode_words)  # inside GDB the instance gets only the words left of -g: no mode option
+    so, se = io.StringIO(), io.StringIO()
+    try:
+        with contextlib.redirect_stdout(so), contextlib.redirect_stderr(se):
+            args = parse_args(words)
+    except SystemExit as e:
+        raise RuntimeError('parse_args(%r) left through exit(%r): %s' % (words, e.code, (so.getvalue() + se.getvalue())[-300:]))
     util.set_color_output(bool(color))
     logging.getLogger().setLevel(logging.WARNING)
     LOG.take()
